@@ -260,7 +260,7 @@ def st_case(draw, max_commits=10):
     nb = draw(st.integers(1, 5))
     names = draw(st.lists(st.sampled_from(["release/1.0", "release/2.0", "release/10.0", "release/1.10", "release/1.2",
                                            "release/1.0.1", "release/9.9", "master", "release/9_10", "release/10_9",
-                                           "release/2-11", "release/11-2", "release/x.1", "release/X1"]),
+                                           "release/2-11", "release/11-2", "release/x.1", "release/X1", "release/0.5", "release/0.0", "release/1.0.0"]),
                           min_size=nb, max_size=nb, unique=True))
     branches = {b: draw(st.integers(0, n - 1)) for b in names}
     ntags = draw(st.integers(0, min(6, n + 1)))
